@@ -196,7 +196,13 @@ def rdStep (d : RdDrv) (toks : List String) : RdDrv × String :=
   | _, none => (d, "bad-op")
   | ["start", t, p, n], some s =>
     match t.toNat?, p.toNat?, n.toNat? with
-    | some t, some p, some n => ({ st := some (s.step (.start t ⟨p, n⟩)) }, "ok")
+    | some t, some p, some n =>
+      let s' := s.step (.start t ⟨p, n⟩)
+      if s'.log.length > s.log.length then
+        match s'.log.head? with
+        | some (u, _, res) => ({ st := some s' }, s!"done {u} {rdRes res}")
+        | none => ({ st := some s' }, "ok")
+      else ({ st := some s' }, "ok")
     | _, _, _ => (d, "bad-op")
   | ["step", t], some s =>
     match t.toNat? with
